@@ -54,16 +54,16 @@ prop("C04", ["EXP-1", "LAY-1", "LAY-3", "WID-3", "WID-6", "ENC-6", "ENC-7", "ESC
      "over all statements (definition order irrelevant); undefined symbols raise; width predicates and two's-complement modulus follow the field width; statement-level handlers turn arithmetic errors "
      "(division by zero, out-of-range results) into a TranslationError.",
      "the arithmetic value of an expression for concrete operands and reduction modulo 65536; the address-expression path (calculate_address_offset) carries recorded findings.", ASM_ASSUME)
-prop("C05", ["DIR-1", "WID-3", "WID-8", "WID-1", "TAB-1", "TXT-1~^(?!parse_line:(label-spelling|operand-whole))", "ENC-7", "TXT-2", "WID-9", "LAY-1~Statement.set_address:emits"],
+prop("C05", ["DIR-1", "WID-3", "WID-8", "WID-1", "TAB-1", "TXT-1~^(?!parse_line:(label-spelling|operand-whole))", "ENC-7", "TXT-2", "WID-9", "LAY-1~Statement.set_address:emits", "LAY-5~get_binary_array:(evaluated|additional)"],
      "every pseudo row either has an emitting arm (FCB, FDB, FCC, RMB) with the directive's width/size facts (element widths 2/4 hex digits, single values hint 2/4 size 1/2, RMB n -> n zero bytes, "
      "self-sized lists and strings) or reaches the empty CodePackage; list separators; string delimiters must match; FCC's closing delimiter is the first occurrence after the opening one; "
      "two's-complement rendering at the directive's width.",
      "byte-for-byte content for arbitrary lists and strings; range rejection (recorded finding: renderings are not range-checked).", ASM_ASSUME)
-prop("C06", ["CAS-1~:(name|name-source|name-filter|source|field\\d+\\(\\w+\\)|fields|data|continuation|length|pairing|address-bytes)$", "CAS-3", "CAS-5", "CAS-6", "VF-8", "WID-10"],
+prop("C06", ["CAS-1~:(name|name-source|name-filter|source|field\\d+\\(\\w+\\)|fields|data|continuation|length|pairing|address-bytes)$", "CAS-3", "CAS-4", "CAS-5", "CAS-6", "VF-8", "WID-10"],
      "the reader consumes exactly the frames the writer produces: header signature, each header field read at the offset the writer stores it and delivered to the matching CoCoFile field, "
      "name length, where block search resumes, data blocks stepped over by exactly 4 + len + 2 with payload copied from offset 4, EOF frame length; writers never modify the data they are given.",
      "equality of data for all contents and lengths; tolerance of arbitrary foreign tapes.")
-prop("C07", ["DSK-1", "DSK-2", "DSK-3", "DSK-4", "DSK-5", "DSK-12", "DSK-13", "VF-8", "CAS-3", "DET-2~^(?!Program\\.|Statement\\.|assembler:)", "DSK-8", "DSK-7~(granule_in_use|first-free)", "DSK-6~GRANULE_FILL_ORDER"],
+prop("C07", ["DSK-1", "DSK-2", "DSK-3", "DSK-4", "DSK-5", "DSK-12", "DSK-13", "VF-8", "CAS-3", "DET-2~^(?!Program\\.|Statement\\.|assembler:)", "DSK-8", "DSK-7~(granule_in_use|first-free)", "DSK-6~GRANULE_FILL_ORDER", "VF-6~list_files:size-gate"],
      "geometry constants and the granule->offset map for all 68 granules; directory entry layout of writer and reader against the Disk BASIC layout with bounded field writes; preamble/postamble "
      "read/write siblings agree on flags, offsets and lengths and on which file kind gets which; FAT links, terminator C0+sectors, reader masks; stream length computed identically by the three "
      "length functions (with and without trailer), sector and granule counts consistent for every length.",
@@ -76,7 +76,7 @@ prop("C09", ["VF-1", "VF-4", "VF-6", "VF-8", "CAS-5", "DSK-5", "DSK-7", "DSK-6",
      "append = list the existing image, append the new file at the end, rebuild the whole list in order into a fresh container; cassette writers only append to the buffer; disk allocation only takes "
      "free granules and free directory slots; a fresh DiskFile owns its own buffer (no shared class-level image); sniffing order disk, cassette, binary with matching kinds.",
      "the property over histories of interleaved add/save/re-open; kind recognition by content (recorded finding VF-6).")
-prop("C10", ["VF-1~^save_virtual_file", "VF-2", "VF-3", "VF-4", "VF-6", "VF-8", "CLI-1", "CLI-3", "VF-5~^(?!add_coco_file)", "CLI-4~:(kind|open|save|end):", "CLI-5~:(kind|sequence|append):", "VF-9", "CAS-5~read_file:refuses-field", "DSK-5~list_files:(scan|skips-unreadable)"],
+prop("C10", ["VF-1~^save_virtual_file", "VF-2", "VF-3", "VF-4", "VF-6", "VF-8", "CLI-1", "CLI-3", "VF-5~^(?!add_coco_file)", "CLI-4~:(kind|open|save|end):", "CLI-5~:(kind|sequence|append):", "VF-9", "CAS-5~^read_(file|blocks)", "DSK-5~list_files:(scan|skips-unreadable)", "DSK-4~^read_data:"],
      "every path to a host write in save_virtual_file takes the false edge of `file_exists and not append_mode`, whose true edge only raises; the only host write is open(name, 'wb') in "
      "SourceFile.write_binary_contents, reached only through write_file from save_virtual_file and writing the whole buffer; file_exists is set exactly under os.path.exists; a kind mismatch raises; "
      "every CLI save site goes construct -> open -> add* -> save(append_mode=args.append) with the container kind of its switch; handlers report the error.",
@@ -91,12 +91,12 @@ prop("C12", ["WID-1", "WID-3", "WID-8", "WID-5", "WID-6", "LAY-5", "ENC-4", "ENC
      "by a grammar-valid operand only (probe spellings outside the grammar must raise); PSH/PUL/TFR/EXG reject unknown, own-stack and mixed-size registers; parse-time numeric limits; the width of "
      "`additional` at every sink against the mode's width.",
      "acceptance/rejection of arbitrary operand strings beyond the probe set and the classification cascade.", ASM_ASSUME)
-prop("C13", ["TERM-1", "ESC-1", "ESC-2", "CLI-1", "LAY-0", "TXT-2", "INC-1~(read-errors|codec|trail(?!-identity))", "EXP-1~SymbolValue.resolve", "WID-5"],
+prop("C13", ["TERM-1", "ESC-1", "ESC-2", "CLI-1", "LAY-0", "TXT-2", "INC-1~(read-errors|codec|cycle|trail(?!-identity))", "EXP-1~SymbolValue.resolve", "WID-5"],
      "the sizing loop terminates because sizing fixes the size on every path; call cycles reachable from process are bounded (include trail checked, the others triaged); the explicit-raise escape "
      "fixpoint over the resolved call graph leaves only ParseError/TranslationError out of Program.process; every pass is wrapped by a handler that converts any exception into a diagnostic naming "
      "the statement; parse-phase first/last-character accesses are dominated by emptiness checks; the CLI handlers exit non-zero before any save.",
      "termination/robustness on all texts beyond these structural arguments (implicit exceptions inside the parse phase other than the indexed-access pattern).", ASM_ASSUME)
-prop("C14", ["CAS-1~^(?!.*:(name-source|name-filter|source)$).*", "CAS-4", "CAS-3", "WID-10", "VF-9~write_binary_contents"],
+prop("C14", ["CAS-1~^(?!.*:(name-source|name-filter)$).*", "CAS-4", "CAS-3", "WID-10", "VF-9~write_binary_contents"],
      "on every path of every block writer: sync 55 3C, type 00/01/FF, length byte equal to the payload count and <= 255, payload fields in format order, checksum byte = (type + length + payload) mod 256 "
      "established by pairing every byte written with a checksum term, trailer 55; data payload byte i = data[i], continuation at the number of bytes written; file order leader, name-file, leader, "
      "data, EOF; only appends.",
@@ -114,7 +114,7 @@ prop("C17", ["DET-1", "DET-2", "DET-3", "DET-4", "DET-5", "DET-6"],
      "shared default objects are never mutated; the source-line list is only read; no iteration over sets, no hash/id/time/random/environment reads in the core; no memoisation. Each rule carries "
      "an embedded bad/good canary pair evaluated on every run.",
      "nothing further under the assumption of insertion-ordered dicts.", ["dict insertion order (Python >= 3.7)"])
-prop("C18", ["TXT-1", "EXP-1", "LAY-1", "WID-3", "WID-8", "DIR-1~^(?!.*:elements$)", "REL-1", "REL-5", "ENC-7", "TXT-2", "LAY-3", "LAY-5~get_binary_array", "ENC-1~pcr-test"],
+prop("C18", ["TXT-1", "EXP-1", "LAY-1", "WID-3", "WID-8", "DIR-1~^(?!.*:elements$)", "REL-1", "REL-5", "ENC-7", "TXT-2", "LAY-3", "LAY-5~get_binary_array", "ENC-1~(pcr-test|register-source)"],
      "the mnemonic is upper-cased before lookup; the line pattern splits label/mnemonic/operands for any amount of white space; accumulator offsets are recognised by whole-string comparison "
      "(no substring tests on operand text); addresses are prefix-determined (single forward pass); one-byte width only for values <= 255.",
      "the metamorphic relations themselves (relocation, renaming, reformatting) for concrete programs.", ASM_ASSUME)
